@@ -118,4 +118,30 @@ def mon (st : St) (op : List String) (outs : List (List String)) : St × List St
 
 def monitor : Monitor := { σ := St, init := {}, step := mon }
 
+/-! ### real-time histories: a destination change still under way when the reconnect wait of the failed pool ends -/
+
+/-- the active pool (pa) broke; during the reconnect wait a task towards pb was queued and its destination change took its
+time.  Once everything has settled: the task is in service ⇒ the miner is relayed with pb, in both directions, and with
+nobody else, by exactly one connection to pb, and the broken pool was not dialled again on top of it; the task ended ⇒ the
+miner is back with its default pool through exactly one replacement; or the session was released. -/
+def monRT (_ : Unit) (op : List String) (outs : List (List String)) : Unit × List String :=
+  match op with
+  | "rt" :: _ =>
+    let line (k : String) : List String := ((outs.find? (·.head? = some k)).getD []).drop 1
+    let dials := line "dials"; let relay := line "relay"
+    let task := (line "task").headD "?"; let sched := (line "sched").headD "?"
+    let n (l : List String) (k : String) : Nat := (kvGet l k).toNat?.getD 0
+    let what := s!"dials pa={n dials "pa"} pb={n dials "pb"}, pb→miner={n relay "pb-to-miner"} pa→miner={n relay "pa-to-miner"} miner→pb={n relay "miner-to-pb"} miner→pa={n relay "miner-to-pa"}"
+    if sched ≠ "running" then ((), []) else
+    if task = "serving" then
+      if n relay "pb-to-miner" = 1 ∧ n relay "miner-to-pb" = 1 ∧ n relay "pa-to-miner" = 0 ∧ n relay "miner-to-pa" = 0 ∧
+         n dials "pb" = 1 ∧ n dials "pa" = 1 then ((), [])
+      else ((), [s!"C06 a destination change was under way when the reconnect wait of the failed pool ended; the task is in service and the miner is not relayed with the task's pool by one connection: {what}"])
+    else
+      if n relay "pa-to-miner" = 1 ∧ n relay "pb-to-miner" = 0 ∧ n dials "pa" ≤ 2 then ((), [])
+      else ((), [s!"C06 the destination change failed ({task}) and the miner is not served by its default pool through one replacement: {what}"])
+  | _ => ((), [])
+
+def monitorRT : Monitor := { σ := Unit, init := (), step := monRT }
+
 end PRV.Driver.LifeMon
